@@ -826,6 +826,26 @@ package jd
 //@   ensures_bounded ret0 == ""
 //@   carries C14 C05
 
+//@ contract verifCLITranslate
+//@   bounded
+//@   needs_cli
+//@   cap 400 20000
+//@   universe a verifTranslateDocs()
+//@   universe b []JsonNode{jsonNull(nil)}
+//@   universe mode []int{0}
+//@   requires validNode(a)
+//@   ensures_bounded ret0 == ""
+//@   carries C14
+
+//@ contract verifCLITranslateDiff
+//@   bounded
+//@   needs_cli
+//@   cap 250 20000
+//@   universe mode []int{1, 2}
+//@   requires validNode(a) && validNode(b)
+//@   ensures_bounded ret0 == ""
+//@   carries C14
+
 //@ contract verifCLIMalformed
 //@   bounded
 //@   needs_cli
